@@ -491,6 +491,12 @@ impl<'a, C: Crypto + 'a> CaseP<'a, C> {
                 }
             }
 
+            // The ICAC must be a separate CA cert, i.e. not self-signed (same rule
+            // as applied when the credentials are installed with AddNOC)
+            if icac.is_self_signed()? {
+                Err(ErrorCode::InvalidData)?;
+            }
+
             verifier = verifier.add_cert(icac, tmp_buf)?;
         }
 
